@@ -159,9 +159,12 @@ type Exec struct {
 	// TraceBounds makes every index and slice operation visible as a
 	// "bounds" effect (used by the bounds rules).
 	TraceBounds bool
-	act         int
-	npaths      int
-	Problems    []string
+	// FieldsWritten, when set, refines the havoc of a pointer argument of an
+	// opaque module callee to the fields the callee may write.
+	FieldsWritten func(fn *ssa.Function, param int) ([]string, bool)
+	act           int
+	npaths        int
+	Problems      []string
 }
 
 func (x *Exec) problem(format string, a ...any) {
@@ -920,6 +923,14 @@ func (x *Exec) call(fr *frame, b *ssa.BasicBlock, i int, pred *ssa.BasicBlock, i
 		for k, a := range args {
 			if k < len(c.Args) {
 				if _, ok := c.Args[k].Type().Underlying().(*types.Pointer); ok {
+					if x.FieldsWritten != nil && len(callee.Blocks) > 0 {
+						if fs, precise := x.FieldsWritten(callee, k); precise {
+							for _, f := range fs {
+								x.havoc(st, &Term{Op: "faddr", Name: f, Args: []*Term{a}})
+							}
+							continue
+						}
+					}
 					x.havoc(st, a)
 				}
 			}
